@@ -1,42 +1,110 @@
 package main
 
 import (
+	"bufio"
+	"encoding/json"
 	"fmt"
+	"os"
+	"path/filepath"
 	"sort"
+	"strings"
 )
 
+type KnownFinding struct {
+	Property   string `json:"property"`
+	Obligation string `json:"obligation"`
+	What       string `json:"what"`
+	Witness    string `json:"witness,omitempty"`
+	Class      string `json:"class,omitempty"` // spec expression over the function's parameters describing the known failing inputs
+	Status     string `json:"status"`          // open | fixed
+	Commit     string `json:"commit,omitempty"`
+}
+
+func loadKnown(path string) []KnownFinding {
+	f, err := os.Open(path)
+	if err != nil {
+		return nil
+	}
+	defer f.Close()
+	var out []KnownFinding
+	sc := bufio.NewScanner(f)
+	sc.Buffer(make([]byte, 1<<20), 1<<20)
+	for sc.Scan() {
+		l := strings.TrimSpace(sc.Text())
+		if l == "" || strings.HasPrefix(l, "#") || strings.HasPrefix(l, "fixed:") {
+			continue
+		}
+		var k KnownFinding
+		if json.Unmarshal([]byte(l), &k) == nil {
+			out = append(out, k)
+		}
+	}
+	return out
+}
+
+type ReplayFile struct {
+	Property   string      `json:"property"`
+	Obligation string      `json:"obligation"`
+	Function   string      `json:"function"`
+	Clause     string      `json:"clause"`
+	Position   string      `json:"position,omitempty"`
+	Result     string      `json:"solver_result"`
+	Solver     string      `json:"solver"`
+	Output     string      `json:"solver_output"`
+	Model      string      `json:"model,omitempty"`
+	Inputs     interface{} `json:"inputs,omitempty"`
+	TestSource string      `json:"test_source,omitempty"`
+	TestOutput string      `json:"test_output,omitempty"`
+	Verdict    string      `json:"verdict"` // reproduced | not-reproduced | no-model | replay-unavailable
+	Script     string      `json:"smt_script_file,omitempty"`
+}
+
+type Evidence struct {
+	PropertyID  string                 `json:"property_id"`
+	Tier        string                 `json:"tier"`
+	Seed        int64                  `json:"seed"`
+	Level       string                 `json:"level"`
+	Coverage    map[string]interface{} `json:"coverage"`
+	Assumptions []string               `json:"assumptions"`
+	WallS       float64                `json:"wall_s"`
+	Violations  int                    `json:"violations"`
+}
+
 func report(o *runOpts, P *Prog, results []*FuncResult, undecided []string, tLoad, tGen, wall float64) int {
-	nObl, nOK, nFail := 0, 0, 0
-	exit := 0
+	known := loadKnown(o.known)
+	nObl, nOK := 0, 0
+	var failing []*Obligation
+	failVC := map[*Obligation]*FuncResult{}
+	solverCount := map[string]int{}
+	solverTime := 0.0
+	var slowest []*Obligation
 	for _, r := range results {
 		for _, e := range r.Errors {
 			undecided = append(undecided, r.Name+": "+e)
 		}
 		for _, ob := range r.Obls {
 			nObl++
+			solverCount[ob.Solver]++
+			solverTime += ob.TimeS
+			slowest = append(slowest, ob)
 			if ob.Result == "unsat" {
 				nOK++
 				if o.verbose {
 					fmt.Printf("  ok    %-60s %s %.2fs\n", ob.Name, ob.Solver, ob.TimeS)
 				}
 			} else {
-				nFail++
-				fmt.Printf("  FAIL  %-60s %s [%s] %s\n", ob.Name, ob.Result, ob.Solver, ob.Src)
+				failing = append(failing, ob)
+				failVC[ob] = r
 			}
 		}
 		for _, ob := range r.Vacuity {
 			if ob.Result != "sat" {
 				fmt.Printf("  VACUOUS %-58s %s (%s)\n", ob.Name, ob.Result, ob.Src)
-				undecided = append(undecided, "vacuity check failed: "+ob.Name)
+				undecided = append(undecided, "vacuity guard failed (contradictory precondition or unreachable exit): "+ob.Name)
 			}
 		}
 		if o.verbose {
-			var ks []string
-			for k := range r.Havoc {
-				ks = append(ks, k)
-			}
-			sort.Strings(ks)
-			for _, k := range ks {
+			for _, k := range sortedKeys(r.Havoc) {
 				fmt.Printf("  havoc %s: %s x%d\n", r.Name, k, r.Havoc[k])
 			}
 			for _, k := range sortedKeys(r.Notes) {
@@ -44,14 +112,187 @@ func report(o *runOpts, P *Prog, results []*FuncResult, undecided []string, tLoa
 			}
 		}
 	}
+	// known findings and violations
+	violations := 0
+	nKnown := 0
+	var knownLines, violationLines []string
+	for _, ob := range failing {
+		r := failVC[ob]
+		var kf *KnownFinding
+		for i := range known {
+			k := &known[i]
+			if k.Status == "open" && k.Obligation == ob.Name && (k.Property == o.property || o.property == "") {
+				kf = k
+			}
+		}
+		if kf != nil {
+			// is there a violation outside the known class?
+			if kf.Class != "" && ob.Result == "sat" {
+				if res := r.VC.outsideClass(ob, kf.Class, o); res == "sat" {
+					kf = nil // a different violation of the same obligation
+				}
+			}
+		}
+		if kf != nil {
+			nKnown++
+			knownLines = append(knownLines, fmt.Sprintf("KNOWN-FINDING: property=%s %s [%s]", o.property, kf.What, ob.Name))
+			continue
+		}
+		violations++
+		rp := makeReplay(o, P, r, ob)
+		path := filepath.Join(o.replayDir, o.property, sanitizeFile(ob.Name)+".json")
+		os.MkdirAll(filepath.Dir(path), 0o755)
+		data, _ := json.MarshalIndent(rp, "", " ")
+		os.WriteFile(path, data, 0o644)
+		line := fmt.Sprintf("VIOLATION property=%s replay=%s obligation=%s clause=%q result=%s", o.property, path, ob.Name, ob.Src, ob.Result)
+		if rp.Verdict != "reproduced" {
+			line += " no-failing-input-found"
+		}
+		violationLines = append(violationLines, line)
+	}
+	for _, l := range knownLines {
+		fmt.Println(l)
+	}
+	for _, l := range violationLines {
+		fmt.Println(l)
+	}
 	for _, u := range undecided {
 		fmt.Printf("UNDECIDED property=%s reason=%s\n", o.property, u)
 	}
-	fmt.Printf("property=%s functions=%d obligations=%d discharged=%d failed=%d load=%.1fs gen=%.1fs wall=%.1fs\n", o.property, len(results), nObl, nOK, nFail, tLoad, tGen, wall)
-	if nFail > 0 {
-		exit = 1
-	} else if len(undecided) > 0 {
-		exit = 2
+	fmt.Printf("property=%s tier=%s functions=%d obligations=%d discharged=%d known-findings=%d violations=%d undecided=%d load=%.1fs gen=%.1fs wall=%.1fs\n",
+		o.property, o.tier, len(results), nObl, nOK, nKnown, violations, len(undecided), tLoad, tGen, wall)
+	if o.evidence != "" {
+		writeEvidence(o, P, results, undecided, nObl, nOK, nKnown, violations, solverCount, solverTime, slowest, wall, knownLines)
 	}
-	return exit
+	if violations > 0 {
+		return 1
+	}
+	if len(undecided) > 0 {
+		return 2
+	}
+	return 0
+}
+
+func writeEvidence(o *runOpts, P *Prog, results []*FuncResult, undecided []string, nObl, nOK, nKnown, violations int,
+	solverCount map[string]int, solverTime float64, all []*Obligation, wall float64, knownLines []string) {
+	cov := map[string]interface{}{}
+	// claimed obligations exclude known findings (they are reported, not claimed)
+	cov["obligations"] = nObl - nKnown
+	cov["discharged"] = nOK
+	cov["known_findings_reported"] = nKnown
+	cov["checker_cmd"] = fmt.Sprintf("/verif/bin/govc verify -repo %s -property %s -tier %s  (z3 4.8.12 | z3-new 5.1.0 | cvc5 1.0 portfolio, %ds per obligation)", o.repo, o.property, o.tier, o.timeout)
+	var fnames []string
+	var trustedSet = map[string]bool{}
+	havoc := map[string]int{}
+	notes := map[string]int{}
+	eff := map[string]int{}
+	inl := map[string]int{}
+	lib := map[string]int{}
+	modes := map[string]string{}
+	usedCons := map[string]bool{}
+	nvac := 0
+	for _, r := range results {
+		fnames = append(fnames, r.Name)
+		modes[r.Name] = r.Mode.String()
+		for _, t := range r.Trusted {
+			trustedSet[t] = true
+		}
+		for k, v := range r.Havoc {
+			havoc[k] += v
+		}
+		for k, v := range r.Notes {
+			notes[k] += v
+		}
+		for k, v := range r.EffFree {
+			eff[k] += v
+		}
+		for k, v := range r.Inlined {
+			inl[k] += v
+		}
+		if r.VC != nil {
+			for k, v := range r.VC.libUsed {
+				lib[k] += v
+			}
+		}
+		for _, c := range r.UsedCons {
+			usedCons[c] = true
+		}
+		for _, v := range r.Vacuity {
+			if v.Result == "sat" {
+				nvac++
+			}
+		}
+	}
+	sort.Strings(fnames)
+	cov["functions_under_contract"] = fnames
+	cov["int_mode"] = modes
+	cov["vacuity_guards_passed"] = nvac
+	tb := []string{
+		"govc VC generator (SSA -> SMT-LIB translation, /verif/govc) and go/ssa, go/types",
+		"SMT solvers z3 4.8.12, z3 5.1.0, cvc5 1.0",
+		"sequential semantics (goroutines, locks, sync.Map treated sequentially)",
+	}
+	for _, k := range sortedKeys(lib) {
+		tb = append(tb, "library model (trusted contract): "+k)
+	}
+	var ts []string
+	for k := range trustedSet {
+		ts = append(ts, k)
+	}
+	sort.Strings(ts)
+	for _, k := range ts {
+		tb = append(tb, "trusted contract (body not verified): "+k)
+	}
+	cov["trusted_base"] = tb
+	cov["havoc_calls"] = havoc
+	cov["effect_free_calls_assumed"] = eff
+	cov["inlined_callees"] = inl
+	cov["abstracted_constructs"] = notes
+	var cs []string
+	for k := range usedCons {
+		cs = append(cs, k)
+	}
+	sort.Strings(cs)
+	cov["callee_contracts_used"] = cs
+	cov["solver_wins"] = solverCount
+	cov["solver_time_s"] = solverTime
+	cov["undecided"] = undecided
+	cov["known_findings"] = knownLines
+	sort.Slice(all, func(i, j int) bool { return all[i].TimeS > all[j].TimeS })
+	var slow []map[string]interface{}
+	for i := 0; i < len(all) && i < 5; i++ {
+		slow = append(slow, map[string]interface{}{"obligation": all[i].Name, "solver": all[i].Solver, "time_s": all[i].TimeS})
+	}
+	cov["slowest"] = slow
+	var samples []map[string]interface{}
+	for _, r := range results {
+		for _, ob := range r.Obls {
+			if len(samples) >= 8 {
+				break
+			}
+			if ob.Trivial || ob.Kind == "safe.index" && len(samples) > 2 {
+				continue
+			}
+			s := ob.Script
+			tail := s
+			if len(tail) > 700 {
+				tail = "..." + tail[len(tail)-700:]
+			}
+			samples = append(samples, map[string]interface{}{"obligation": ob.Name, "clause": ob.Src, "result": ob.Result, "solver": ob.Solver, "time_s": ob.TimeS, "smt_bytes": len(s), "smt_tail": tail})
+		}
+	}
+	cov["samples"] = samples
+	cov["explanation"] = "each obligation is a weakest-precondition style verification condition generated from the SSA of the function in the current /repo tree and the contracts in src/<pkg>/zz_verif_contracts.go; 'discharged' counts obligations for which a solver returned unsat for the negated VC"
+	ev := Evidence{PropertyID: o.property, Tier: o.tier, Seed: o.seed, Level: "proof", Coverage: cov, WallS: wall, Violations: violations}
+	ev.Assumptions = append(ev.Assumptions, tb...)
+	ev.Assumptions = append(ev.Assumptions, "machine integers are 64-bit vectors in bv mode; in math mode they are mathematical integers with explicit range/overflow obligations unless the contract says 'option mathints'")
+	for _, k := range sortedKeys(havoc) {
+		ev.Assumptions = append(ev.Assumptions, "call abstracted by havoc (sound, weak): "+k)
+	}
+	for _, k := range sortedKeys(eff) {
+		ev.Assumptions = append(ev.Assumptions, "call assumed effect-free: "+k)
+	}
+	os.MkdirAll(filepath.Dir(o.evidence), 0o755)
+	data, _ := json.MarshalIndent(ev, "", " ")
+	os.WriteFile(o.evidence, data, 0o644)
 }
